@@ -6,6 +6,35 @@ VERIF = os.path.dirname(os.path.dirname(os.path.abspath(__file__)))
 ORDER = ["C19", "C14", "C15", "C01", "C02", "C03", "C13", "C05", "C10", "C11", "C12", "C18", "C20", "C09", "C08", "C07", "C06", "C04", "C16", "C17"]
 
 
+def normalise(pid, text):
+    """Per-property documents come from different authors: shift their headings
+    so that the document starts with '### Cxx …' and everything else is below."""
+    import re
+    lines = text.splitlines()
+    in_code = False
+    heads = []
+    for i, l in enumerate(lines):
+        if l.startswith("```"):
+            in_code = not in_code
+        m = re.match(r"^(#+) ", l)
+        if m and not in_code:
+            heads.append((i, len(m.group(1))))
+    if not heads:
+        return "### %s\n\n%s" % (pid, text)
+    first_i, first_lvl = heads[0]
+    title_is_prop = pid in lines[first_i]
+    for i, lvl in heads:
+        if i == first_i and title_is_prop:
+            new = 3
+        else:
+            new = min(6, 4 + max(0, lvl - (first_lvl + 1 if title_is_prop else first_lvl)))
+        lines[i] = "#" * new + lines[i][lvl:]
+    out = "\n".join(lines)
+    if not title_is_prop:
+        out = "### %s\n\n%s" % (pid, out)
+    return out
+
+
 def findings():
     import json
     return json.load(open(os.path.join(VERIF, "known_findings.json"))).get("findings", [])
@@ -48,7 +77,7 @@ def main():
     for pid in ORDER:
         p = os.path.join(d, pid + ".md")
         if os.path.exists(p):
-            parts.append("\n" + open(p).read().rstrip() + "\n")
+            parts.append("\n" + normalise(pid, open(p).read()).rstrip() + "\n")
         else:
             parts.append("\n### %s\n\n(section not written yet)\n" % pid)
     tail = open(os.path.join(d, "DESIGN_tail.md")).read()
